@@ -53,7 +53,7 @@ def main():
             meta["suite_only_baseline_failure"] = ("test_random_jump_operator" in out and meta["suite_failed"] == 1) or meta["suite_failed"] == 0
         results = {}
         for c in checks:
-            env2 = dict(os.environ, VERIF_REPO=wt)
+            env2 = dict(os.environ, VERIF_REPO=wt, VERIF_EVIDENCE_DIR="/tmp/seedeval_evidence")
             t = time.time()
             rc, out = sh(["/venv/bin/python", os.path.join(ROOT, "harness", "check.py"), c, "--tier", "quick"], cwd=ROOT, env=env2, timeout=3000)
             lines = [l for l in out.splitlines() if l.startswith("VIOLATION") or l.startswith("KNOWN-FINDING") or l.startswith("[" + c)]
